@@ -493,6 +493,7 @@ def run(repo, rep, tier):
               "expression may read any of them)",
               construct="error-info-complete", where=L.where(ei))
     error_variable_scope(repo, rep)
+    handler_locals_distinct(repo, rep)
     # ... and line / column are the position's items as they are: lines count
     # from 1 but columns from 0, so a truth test or arithmetic on them loses
     # a legitimate value
@@ -521,6 +522,25 @@ def run(repo, rep, tier):
              ("location-line", "location-column", "location-pair"),
              minimum=3)
     L.state_rule(repo, rep)
+
+
+def handler_locals_distinct(repo, rep, rule="R13.2"):
+    """what the handler needs is saved in per-node locals ahead of the try
+    (the length of the stream, the scope, the globals, the translation
+    settings): all of them are alive until the handler has run, so their
+    generated names differ pairwise"""
+    f = repo.func("chameleon.compiler.Compiler.visit_OnError")
+    made = {}
+    for a in ast.walk(f.node):
+        if isinstance(a, ast.Assign) and isinstance(a.value, ast.Call) and \
+                src(a.value.func) == "identifier" and a.value.args:
+            made[src(a.targets[0])] = tuple(src(x) for x in a.value.args)
+    dup = [k for k in made if list(made.values()).count(made[k]) > 1]
+    rep.check(len(made) >= 4 and not dup, rule, f.qualname, "the per-node "
+              "locals of the handler have pairwise different generated "
+              "names (%d locals)" % len(made),
+              construct="handler-locals-distinct", where=L.where(f),
+              detail=", ".join("%s=%s" % (k, made[k][0]) for k in dup))
 
 
 def error_variable_scope(repo, rep, rule="R13.4"):
